@@ -312,6 +312,17 @@ Corollary spec_countermodel_complete t S w pbs :
   forall FI M, spec_difference t S FI M -> refutes_some FI M pbs.
 Proof. intros Hs Ho Hf Ht Hn FI M. apply (spec_refuted_iff_difference t S w pbs Hs Ho Hf Ht Hn). Qed.
 
+Corollary spec_verified_iff_no_difference t S w pbs :
+  et_specification t = inr S -> et_proof_outline t = [] ->
+  external_decompose_full fuel t = XOk w pbs ->
+  is_tight (et_program t) = true ->
+  (forall vt, task_validated tau_star_total completion (simp_classic_total fuel) t = Some vt -> validated_no_clash vt) ->
+  ((forall FI M, ~ refutes_some FI M pbs) <-> (forall FI M, ~ spec_difference t S FI M)).
+Proof.
+  intros Hs Ho Hf Ht Hn. split; intros H FI M HM; apply (H FI M);
+    apply (spec_refuted_iff_difference t S w pbs Hs Ho Hf Ht Hn FI M); exact HM.
+Qed.
+
 (* tightness follows from acceptance when --bypass-tightness is off *)
 Lemma spec_accepted_tight t w pbs : external_decompose_full fuel t = XOk w pbs ->
   et_bypass_tightness t = false -> is_tight (et_program t) = true.
